@@ -2,7 +2,8 @@
 // properties say about routing and context scoping.
 // Bound: head-follow in a context with and without an existing head, frames of the same topic appended in three contexts;
 // 14 topic names that start like a reserved path (cas, head, import, version) posted with a body, with and without ?context=;
-// GET /head/<topic> for the same names.
+// GET /head/<topic> for the same names; import of a frame before its context's registration; GET / with tail and no follow; Accept
+// headers with non-ASCII bytes.
 use std::time::Duration;
 use tokio::io::{AsyncReadExt, AsyncWriteExt};
 use xs::store::{Frame, Store, ZERO_CONTEXT};
@@ -105,4 +106,41 @@ async fn a_topic_is_routed_by_its_whole_name() {
     assert!(resp.starts_with(b"HTTP/1.1 200") && String::from_utf8_lossy(&body_of(&resp)).trim().starts_with("sha256-"), "C13: POST /cas answers with the hash");
     let resp = raw(&sock, b"GET /version HTTP/1.1\r\nhost: x\r\n\r\n", 400).await;
     assert!(resp.starts_with(b"HTTP/1.1 200"), "C13: GET /version");
+}
+
+#[tokio::test(flavor = "multi_thread", worker_threads = 4)]
+async fn import_order_cat_options_and_odd_headers() {
+    let (_d, sock, store) = server().await;
+    // C20: a frame may be imported BEFORE the registration of its context (any order), and is stored as is
+    let ctx = scru128::new();
+    let mut f = Frame::builder("note", ctx).build(); f.id = scru128::new();
+    let body = serde_json::to_vec(&f).unwrap();
+    let req = [format!("POST /import HTTP/1.1\r\nhost: x\r\nconnection: close\r\ncontent-length: {}\r\n\r\n", body.len()).into_bytes(), body].concat();
+    let resp = raw(&sock, &req, 800).await;
+    assert!(resp.starts_with(b"HTTP/1.1 200"), "C20: import of a frame whose context registration has not been imported yet: {:?}", String::from_utf8_lossy(&resp[..resp.len().min(80)]));
+    assert!(store.get(&f.id).is_some(), "C20: imported frame stored as is");
+    let mut reg = Frame::builder("xs.context", ZERO_CONTEXT).build(); reg.id = ctx;
+    let body = serde_json::to_vec(&reg).unwrap();
+    let req = [format!("POST /import HTTP/1.1\r\nhost: x\r\nconnection: close\r\ncontent-length: {}\r\n\r\n", body.len()).into_bytes(), body].concat();
+    assert!(raw(&sock, &req, 800).await.starts_with(b"HTTP/1.1 200"), "C20: import of the registration");
+    assert_eq!(store.read_sync(None, None, Some(ctx)).map(|x| x.id).collect::<Vec<_>>(), vec![f.id], "C20: the context's stream after both imports");
+    // C13: GET / answers exactly what Store::read answers for the same options - tail without follow delivers nothing
+    for i in 0..3 { store.append(Frame::builder(format!("t{}", i), ZERO_CONTEXT).build()).unwrap(); }
+    for q in ["tail=true", "tail=true&limit=2", "tail=true&context-id=0000000000000000000000000"] {
+        let resp = raw(&sock, format!("GET /?{} HTTP/1.1\r\nhost: x\r\nconnection: close\r\n\r\n", q).as_bytes(), 800).await;
+        assert!(resp.starts_with(b"HTTP/1.1 200"), "C13: GET /?{}", q);
+        let text = String::from_utf8_lossy(&body_of(&resp)).to_string();
+        assert!(!text.contains("\"topic\""), "C13: GET /?{} (tail, no follow) must deliver no stored frame, like Store::read: {:?}", q, &text[..text.len().min(120)]);
+    }
+    let resp = raw(&sock, b"GET /?limit=2 HTTP/1.1\r\nhost: x\r\nconnection: close\r\n\r\n", 800).await;
+    assert_eq!(String::from_utf8_lossy(&body_of(&resp)).matches("\"topic\"").count(), 2, "C13: GET /?limit=2 delivers two frames");
+    // C13: every request gets a response, whatever bytes its headers carry
+    for accept in [&b"text/\xe9v\xe9nement"[..], &b"\xff\xfe"[..], &b"text/event-stream, */*"[..], &b"*/*"[..]] {
+        let mut req = b"GET /?limit=1 HTTP/1.1\r\nhost: x\r\nconnection: close\r\naccept: ".to_vec();
+        req.extend_from_slice(accept); req.extend_from_slice(b"\r\n\r\n");
+        let resp = raw(&sock, &req, 800).await;
+        assert!(resp.starts_with(b"HTTP/1.1 "), "C13: GET / with accept {:?}: connection dropped without an HTTP response ({} bytes)", String::from_utf8_lossy(accept), resp.len());
+    }
+    let resp = raw(&sock, b"GET /version HTTP/1.1\r\nhost: x\r\nconnection: close\r\n\r\n", 400).await;
+    assert!(resp.starts_with(b"HTTP/1.1 200"), "C13: the server still answers after the odd requests");
 }
